@@ -67,8 +67,11 @@ def main():
             # the file on disk is what the interpreter compiles on import; additionally make sure the
             # in-memory module was loaded from this very text
             obj = m
-            for p in parts:
-                obj = inspect.getattr_static(obj, p) if not inspect.ismodule(obj) else getattr(obj, p)
+            try:
+                for p in parts:
+                    obj = inspect.getattr_static(obj, p) if not inspect.ismodule(obj) else getattr(obj, p)
+            except AttributeError:
+                continue        # the function does not exist on this tree (reported by the verifier itself)
             f = getattr(obj, "__func__", obj)
             f = getattr(f, "fget", f)
             f = getattr(f, "func", f)
